@@ -112,7 +112,7 @@ func init() {
 			}
 		}
 		c.Ev.S.Exhaustive["length_x_container_x_form_grid"] = done
-		cfg := gen.Cfg{ExprDepth: 2, BodyLen: 3, Nest: 4, Calls: true, Carriers: true, If: true, For: true, LoopMeta: true, ForIf: true, NonIterable: true, Collide: true}
+		cfg := gen.Cfg{ExprDepth: 2, BodyLen: 3, Nest: 4, Calls: true, Carriers: true, If: true, For: true, LoopMeta: true, ForIf: true, NonIterable: true, Collide: true, RecMacro: true}
 		sub.Rapid(c, c.Share(c.Pick(25000, 1000000)), progGen(cfg))
 	}
 	Register(p)
